@@ -792,6 +792,99 @@ def main(argv):
                           "(blots -i INPUTS prog1 | blots prog2 | blots prog2)",
                           {"kind": "cli-chain-inputs", "program": prog, "args": args, "inputs": INPUTS_JSON, "prog1": o1,
                            "prog2": o2 if isinstance(o2, dict) else str(o2), "prog2_again": o3 if isinstance(o3, dict) else str(o3)})
+    # the same family IN PROCESS, with a non-empty inputs record (harness header `//#inputs <json>`): the emitted
+    # text parsed by the real parser against the model's inlined AST (ties Emit.subst on `#name`), the four-generation
+    # law, and the model's evaluation of original / reloaded with that inputs record.  `#` members are counted under F54
+    # while it is open and strict once it is fixed.
+    INP_ARGS = {"f = (x, inputs?) => [x, inputs]": ["1", "1, 2"]}
+    inp_extra = [("f = x => #rate", ["0"]), ("f = x => [#rate, inputs.rate, x] ", ["1"]), ("f = x => -#rate + #fees[0]!", ["1"]),
+                 ("f = x => (inputs => [#rate, x])({rate: 9})", ["1"]), ("f = x => do {\n  inputs = {rate: 7}\n  return [#rate, x]\n}", ["1"]),
+                 ("f = x => do {\n  r = #rate\n  inputs = {rate: r + x}\n  return #rate\n}", ["1"]),
+                 ("f = x => y => [#rate, x, y]", ["1)(2"]), ("g = y => #rate * y\nf = x => [g(x), g]", ["2"]),
+                 ("f = x => {rate: #rate, t: #tag, m: #missing}", ["0"]), ("f = x => if #rate > x then #fees else #cfg.deep", ["1", "3"])]
+    icases = [("inputs/%d" % k, "//#inputs " + INPUTS_JSON + "\n" + prog, args)
+              for k, (prog, args) in enumerate(INPUTS_PROGS + inp_extra)]
+    irust = rust_emit(h, icases)
+    iparsed = [fields(o) for o in irust]
+    istat = {"cases": len(icases), "with_inref": sum(1 for _, p_, _ in icases if "#rate" in p_ or "#fees" in p_ or "#tag" in p_ or "#cfg" in p_),
+             "ast_agree": 0, "ast2_agree": 0, "law_checked": 0, "law_ok": 0, "in_known_class_F54": 0,
+             "behaviour_agree": 0, "behaviour_skipped_unmodelled": 0}
+    try:
+        ireports = model_reports(iparsed, "c05i")
+    except c.BrokenTie as e:
+        res.tie_broken(e.what, e.detail)
+        ireports = [None] * len(icases)
+    imism, ibeh = [], []
+    for (kind, prog, args), d, rep in zip(icases, iparsed, ireports):
+        body_has_ref = "#" in prog.split("\n", 1)[1]
+        f54_excused = body_has_ref and "F54" in open_ids
+        if "VAL" not in d or rep is None:
+            if not f54_excused:
+                res.tie_broken("C05/EMIT-INPUTS: a program of the inputs family did not produce a function", "%r -> %s" % (prog, irust[icases.index((kind, prog, args))][:200]))
+            continue
+        a1 = rep.split(" A1")[1][:4]
+        a2 = rep.split(" A2")[1][:4]
+        if a1[want] == "1":
+            istat["ast_agree"] += 1
+            if a2[want] == "1":
+                istat["ast2_agree"] += 1
+            elif not f54_excused:
+                imism.append((prog, "body of the reloaded function (AST2)", rep))
+        elif f54_excused:
+            istat["in_known_class_F54"] += 1
+            continue
+        else:
+            imism.append((prog, "parse of the emitted text (AST1)", rep))
+            continue
+        if d.get("PORT") == "1":
+            for a, r in zip(args, d["R"]):
+                istat["law_checked"] += 1
+                if len(r) == 4 and r[0] == r[1] == r[2] == r[3]:
+                    istat["law_ok"] += 1
+                elif f54_excused:
+                    istat["in_known_class_F54"] += 1
+                elif "FN(" in r[0]:
+                    pass                  # a returned function prints its cell name; compared through its calls only
+                else:
+                    res.violation("a function that mentions `inputs` / #name and its reloaded emission disagree (in process, "
+                                  "non-empty inputs record)",
+                                  {"kind": "impl-law", "program": prog, "args": [a], "observed": r, "expected": "all four equal"})
+        if "INP" in d and not f54_excused:
+            ibeh.append((prog, args, d))
+    if imism:
+        res.tie_broken("correspondence C05/EMIT-INPUTS: the AST of the emitted text differs from the model's inlined AST on %d of %d functions"
+                       % (len(imism), len(icases)), "first: %r\nwhat: %s\nreport: %s" % imism[0])
+    if ibeh:
+        try:
+            allargs = sorted({a for _, args, _ in ibeh for a in args})
+            terms = dict(zip(allargs, call_terms(h, allargs)))
+            exprs, keep = [], []
+            for prog, args, d in ibeh:
+                st_, _, val_ = d["VAL"].partition("] ")
+                calls = [terms[a] for a in args]
+                if any(t is None for t in calls):
+                    continue
+                exprs.append("(emit_behaviour_in %s %s %s %s] %s [%s])" % (d["INP"], b(nanfix), b(dofix), st_, val_, "; ".join(calls)))
+                keep.append((prog, args, d))
+            outs = c.coq_eval_batch(REQ, "", exprs, "c05ib", shard=10)
+            bm = []
+            for (prog, args, d), out in zip(keep, outs):
+                if out is None:
+                    bm.append((prog, args, "-", "model evaluation failed"))
+                    continue
+                for a, r, m in zip(args, d["R"], out.split(" ")):
+                    if "UNMODELLED" in m:
+                        istat["behaviour_skipped_unmodelled"] += 1
+                    elif m == r[0] + "/" + r[1]:
+                        istat["behaviour_agree"] += 1
+                    else:
+                        bm.append((prog, a, "/".join(r[:2]), m))
+            if bm:
+                res.tie_broken("correspondence C05/EMIT-INPUTS-behaviour: model and implementation disagree on %d calls" % len(bm),
+                               "first: %r args %r\nimpl : %s\nmodel: %s" % bm[0])
+        except c.BrokenTie as e:
+            res.tie_broken(e.what, e.detail)
+    res.streams["EMIT-INPUTS"] = dict(istat, inputs=INPUTS_JSON, F54_open="F54" in open_ids)
     stats["cli_inputs_chains"] = len(INPUTS_PROGS)
     stats["cli_inputs_chains_ok"] = inp_ok
     stats["cli_inputs_chains_in_known_class_F54"] = inp_f54
